@@ -287,6 +287,13 @@ def is_mem_bounded(fa, op, depth=0):
                         continue
                     # x = move (tmp.0) with tmp = Add(x, const)
                     rr = root_of(fa, rv["op"])
+                    if rr[0] == "place" and len(rr[1]["p"]) == 1 and isinstance(rr[1]["p"][0], dict) and \
+                            rr[1]["p"][0].get("o") == "(tuple)" and rr[1]["p"][0].get("f") == 0:
+                        # field 0 of the (value, overflowed) pair of a checked addition
+                        dd = fa.single_def(rr[1]["l"])
+                        if dd is not None and dd[2] == "assign" and dd[3]["k"] == "binop" and \
+                                dd[3]["op"].endswith("WithOverflow"):
+                            rr = ("rv", dd[3])
                     if rr[0] == "rv" and rr[1]["k"] == "binop" and rr[1]["op"].startswith("Add"):
                         sides = [root_of(fa, rr[1]["a"]), root_of(fa, rr[1]["b"])]
                         if any(s == ("local", l) for s in sides) and \
